@@ -178,6 +178,45 @@ type world struct {
 	ers     *ersctrl.Reconciler
 	set     *settingctrl.Reconciler
 	pt      *ptctrl.Reconciler
+	// rawSettingSpec keeps the spec of every ExtendedDaemonsetSetting as the JSON text it was applied with. A real API
+	// server stores a custom resource verbatim, so a quantity written "0.5" is decoded by the client as 5*10^-1, while
+	// the same quantity of a Pod comes back canonical ("500m" = 500*10^-3). The fake client canonicalises both; reads
+	// of settings are therefore re-decoded from the text (see verbatim).
+	rawMu          sync.Mutex
+	rawSettingSpec map[string]json.RawMessage
+}
+
+func (w *world) rememberRaw(raw json.RawMessage) {
+	var tm struct {
+		Kind     string `json:"kind"`
+		Metadata struct {
+			Name      string `json:"name"`
+			Namespace string `json:"namespace"`
+		} `json:"metadata"`
+		Spec json.RawMessage `json:"spec"`
+	}
+	if json.Unmarshal(raw, &tm) != nil || tm.Kind != "ExtendedDaemonsetSetting" || tm.Spec == nil {
+		return
+	}
+	w.rawMu.Lock()
+	defer w.rawMu.Unlock()
+	if w.rawSettingSpec == nil {
+		w.rawSettingSpec = map[string]json.RawMessage{}
+	}
+	w.rawSettingSpec[tm.Metadata.Namespace+"/"+tm.Metadata.Name] = tm.Spec
+}
+
+func (w *world) verbatim(s *v1alpha1.ExtendedDaemonsetSetting) {
+	w.rawMu.Lock()
+	raw, ok := w.rawSettingSpec[s.Namespace+"/"+s.Name]
+	w.rawMu.Unlock()
+	if !ok {
+		return
+	}
+	var spec v1alpha1.ExtendedDaemonsetSettingSpec
+	if json.Unmarshal(raw, &spec) == nil {
+		s.Spec = spec
+	}
 }
 
 func contains(l []string, s string) bool {
@@ -402,6 +441,24 @@ func (w *world) build(objs []client.Object) {
 	_ = clientgoscheme.AddToScheme(w.scheme)
 	_ = v1alpha1.AddToScheme(w.scheme)
 	funcs := interceptor.Funcs{
+		Get: func(ctx context.Context, c client.WithWatch, key client.ObjectKey, obj client.Object, opts ...client.GetOption) error {
+			err := c.Get(ctx, key, obj, opts...)
+			if st, ok := obj.(*v1alpha1.ExtendedDaemonsetSetting); ok && err == nil {
+				w.verbatim(st)
+			}
+
+			return err
+		},
+		List: func(ctx context.Context, c client.WithWatch, list client.ObjectList, opts ...client.ListOption) error {
+			err := c.List(ctx, list, opts...)
+			if sl, ok := list.(*v1alpha1.ExtendedDaemonsetSettingList); ok && err == nil {
+				for i := range sl.Items {
+					w.verbatim(&sl.Items[i])
+				}
+			}
+
+			return err
+		},
 		Create: func(ctx context.Context, c client.WithWatch, obj client.Object, opts ...client.CreateOption) error {
 			if w.isDead() {
 				return errInjected
@@ -637,6 +694,7 @@ func (w *world) apply(raw json.RawMessage) error {
 	if err != nil {
 		return err
 	}
+	w.rememberRaw(raw)
 	ctx := context.TODO()
 	cur, _ := decodeObject(raw)
 	err = w.raw.Get(ctx, client.ObjectKeyFromObject(obj), cur)
@@ -1148,6 +1206,9 @@ func runWorld(t *testing.T, raw json.RawMessage) (any, error) {
 			}
 		}()
 		w := &world{t: t, opts: wc}
+		for _, r := range wc.Objects {
+			w.rememberRaw(r)
+		}
 		w.build(objs)
 		// pre-seeded EDS/ERS/setting status must be written through the status subresource
 		for _, o := range objs {
